@@ -18,8 +18,8 @@ impl Check for C06 {
     }
     fn profiles(&self) -> Vec<ProfileSpec> {
         vec![
-            ProfileSpec { name: "riga-stream", quick: 300_000, thorough: 8_000_000 },
-            ProfileSpec { name: "garbage-peer", quick: 4000, thorough: 80_000 },
+            ProfileSpec { name: "riga-stream", quick: 300_000, thorough: 12_000_000 },
+            ProfileSpec { name: "garbage-peer", quick: 4000, thorough: 150_000 },
         ]
     }
     fn rule(&self) -> &'static str {
@@ -320,7 +320,7 @@ impl Check for C19 {
         "C19"
     }
     fn profiles(&self) -> Vec<ProfileSpec> {
-        vec![ProfileSpec { name: "tracker-faults", quick: 15_000, thorough: 400_000 }]
+        vec![ProfileSpec { name: "tracker-faults", quick: 15_000, thorough: 1_000_000 }]
     }
     fn rule(&self) -> &'static str {
         "profile tracker-faults: 0-80 failed announces drawn from {connection refused, HTTP 4xx/5xx, garbage body, truncated bencode, failure reason, reply without peers, slow reply} followed by a good reply with k valid and m malformed entries; an honest peer dials in at a random time inside the failure run; re-announce scenarios when all peers die. Non-trivial: >= 1 failed announce before the good one. Distinct: interleaving hash x (number of failures bucket, kinds of failure)."
@@ -484,7 +484,7 @@ impl Check for C20 {
         "C20"
     }
     fn profiles(&self) -> Vec<ProfileSpec> {
-        vec![ProfileSpec { name: "keepalive", quick: 1500, thorough: 50_000 }]
+        vec![ProfileSpec { name: "keepalive", quick: 1500, thorough: 90_000 }]
     }
     fn rule(&self) -> &'static str {
         "profile keepalive: peers (dial-in and listed) complete a handshake and then follow an arrival pattern: nothing; keep-alives only (every 1-119 s); real messages with gaps from [0,119] U {119, 119.999} s; a silent stretch >= 361 s at the start, middle or end of a busy life; one peer holds a reservation when it goes silent. Horizon 800-1000 virtual s. Non-trivial: >= 1 connection lived >= 361 s or was closed for inactivity. Distinct: interleaving hash x multiset of arrival-pattern kinds."
